@@ -296,7 +296,14 @@ def universe():
          ("f(1)", Term("f", Constant(1))), ("f(1.0)", Term("f", Constant(1.0))), ("g(a,b)", Term("g", a, b)),
          ("g(b,a)", Term("g", b, a)), ("f(f(a))", Term("f", Term("f", a))),
          ("[a,b]", Term(".", a, Term(".", b, Term("[]")))), ("[a]", Term(".", a, Term("[]"))), ("[]", Term("[]")),
-         ("Var('X')", Var("X")), ("Var('Y')", Var("Y")), ("f(Var('X'))", Term("f", Var("X")))]
+         ("Var('X')", Var("X")), ("Var('Y')", Var("Y")), ("f(Var('X'))", Term("f", Var("X"))),
+         # floats that differ only beyond the 15th decimal (an arithmetic result and its literal), ints next to equal floats
+         ("Constant(0.1+0.2)", Constant(0.1 + 0.2)), ("Constant(0.3)", Constant(0.3)),
+         ("w(0.1+0.2)", Term("w", Constant(0.1 + 0.2))), ("w(0.3)", Term("w", Constant(0.3))),
+         ("g(2,[1])", Term("g", Constant(2), Term(".", Constant(1), Term("[]")))),
+         ("g(2.0,[1])", Term("g", Constant(2.0), Term(".", Constant(1), Term("[]")))),
+         ("Constant(-0.0)", Constant(-0.0)), ("Constant(0.0)", Constant(0.0)), ("Constant(0)", Constant(0)),
+         ("f(g(a,b))", Term("f", Term("g", a, b))), ("f(g(a,a))", Term("f", Term("g", a, a)))]
     parsed = list(PrologString("q(a). q('a'). q(1). q(1.0). q(\"s\"). q(f(a)). q(\\+a). q(not(a)). q([a,b]). q(g(a,b))."))
     for c in parsed:
         U.append(("parsed:%s" % c.args[0], c.args[0]))
@@ -311,14 +318,29 @@ def run_c18(tier, seed):
                     "nested compounds, variables): reflexivity, symmetry, transitivity, equal => same hash, ground equal <=> "
                     "unify_value succeeds; exhaustive; distinct = tuples" % len(U))
 
+    from problog.logic import Constant as _Constant, Not as _Not, Var as _Var
+    byname = dict(U)
+
+    def subterms(t):
+        yield t
+        for x in (getattr(t, "args", ()) or ()):
+            if hasattr(x, "functor"):
+                for y in subterms(x):
+                    yield y
+
     def klass(*names):
-        s = " ".join(names)
-        if "Constant(" in s:
+        """The listed known findings, decided on the terms themselves: a Constant with a *string* payload is involved
+        (its equality goes through the printed text), a Not node is involved (\\+ vs not), or the terms differ only
+        in the quotes around an atom.  Anything else is 'other', which no known finding covers."""
+        ts = [byname[n] for n in names]
+        if any(isinstance(s, _Constant) and isinstance(s.functor, str) for t in ts for s in subterms(t)):
             return "constant-string-equality"
-        if "Not(" in s or "\\+" in s or "not(" in s:
+        if any(isinstance(s, _Not) or str(getattr(s, "functor", "")) in ("not", "\\+") for t in ts for s in subterms(t)):
             return "not-functor"
-        if "Var(" in s:
+        if any(isinstance(s, _Var) for t in ts for s in subterms(t)):
             return "var-string-equality"
+        if len(set(str(t).replace("'", "") for t in ts)) == 1 and len(set(str(t) for t in ts)) > 1:
+            return "quoted-atom"
         return "other"
     eq = {}
     for (n1, t1), (n2, t2) in itertools.product(U, repeat=2):
